@@ -34,7 +34,7 @@ fn setup(ca: usize, cb: usize) -> Option<Session> {
     let mut scratch = Report::new();
     let mon = Monitors::default();
     let a = vec![ColDef::new("K", CT::Int16).key(), ColDef::new("V", CT::Int16).nullable()];
-    let b = vec![ColDef::new("K", CT::Int16).key(), ColDef::new("R", CT::Int16).nullable()];
+    let b = vec![ColDef::new("K", CT::Int16).key(), ColDef::new("R.x", CT::Int16).nullable()];
     s.apply(&Op::CreateTable { name: "A".into(), cols: a }, &mon, &mut scratch).ok()?;
     s.apply(&Op::CreateTable { name: "B".into(), cols: b }, &mon, &mut scratch).ok()?;
     if !content(ca).is_empty() {
@@ -62,7 +62,9 @@ fn leaves() -> Vec<MSelect> {
         MSelect::table("B"),
         MSelect::table("A").with(bin(Bin::Eq, col("V"), lit(1))),
         MSelect::table("A").columns(&["V", "K"]),
-        MSelect::table("B").with(bin(Bin::Ne, col("R"), MExpr::Lit(V::Null))).columns(&["R"]),
+        MSelect::table("B").with(bin(Bin::Ne, col("R.x"), MExpr::Lit(V::Null))).columns(&["R.x"]),
+        // every column, in table order: still a projection (its result is anonymous)
+        MSelect::table("A").columns(&["K", "V"]),
     ]
 }
 
